@@ -4,7 +4,7 @@
 
 use lightmotif::abc::{Alphabet, Dna};
 use lightmotif::dense::{DenseMatrix, MatrixCoordinates, MatrixElement};
-use lightmotif::num::{PositiveLength, U1, U16, U2, U32, U4};
+use lightmotif::num::{PositiveLength, U1, U16, U2, U32, U4, U48, U64};
 use lightmotif::pli::dispatch::Dispatch;
 use lightmotif::pli::platform::{Avx2, Generic, Sse2};
 use lightmotif::pli::{Encode, Maximum, Pipeline, Score, Stripe, Threshold};
@@ -26,9 +26,13 @@ pub enum Cfg {
     DispGen,
     DispSse,
     DispAvx,
+    /// wider layouts: any multiple of 16 columns is in contract for the generic and SSE2 pipelines
+    GenU64,
+    SseU48,
+    SseU64,
 }
 
-pub const ALL_CFGS: [Cfg; 11] = [
+pub const ALL_CFGS: [Cfg; 14] = [
     Cfg::GenU32,
     Cfg::GenU1,
     Cfg::GenU2,
@@ -40,6 +44,9 @@ pub const ALL_CFGS: [Cfg; 11] = [
     Cfg::DispGen,
     Cfg::DispSse,
     Cfg::DispAvx,
+    Cfg::GenU64,
+    Cfg::SseU48,
+    Cfg::SseU64,
 ];
 
 /// Configurations that work on 32 columns.
@@ -68,6 +75,9 @@ impl Cfg {
             Cfg::DispGen => "dispatch[generic]/U32",
             Cfg::DispSse => "dispatch[sse2]/U32",
             Cfg::DispAvx => "dispatch[avx2]/U32",
+            Cfg::GenU64 => "generic/U64",
+            Cfg::SseU48 => "sse2/U48",
+            Cfg::SseU64 => "sse2/U64",
         }
     }
 
@@ -81,6 +91,8 @@ impl Cfg {
             Cfg::GenU2 => 2,
             Cfg::GenU4 => 4,
             Cfg::GenU16 | Cfg::SseU16 => 16,
+            Cfg::SseU48 => 48,
+            Cfg::GenU64 | Cfg::SseU64 => 64,
             _ => 32,
         }
     }
@@ -253,6 +265,15 @@ where
         Cfg::SseU32 => {
             let s = Pipeline::<A, Sse2>::sse2().unwrap();
             score_generic::<A, U32, _, _>(&g, &s, syms, pssm, ranges, false, wrap_override)
+        }
+        Cfg::GenU64 => score_generic_no_api::<A, U64, _, _>(&g, &g, syms, pssm, ranges, wrap_override),
+        Cfg::SseU48 => {
+            let s = Pipeline::<A, Sse2>::sse2().unwrap();
+            score_generic_no_api::<A, U48, _, _>(&g, &s, syms, pssm, ranges, wrap_override)
+        }
+        Cfg::SseU64 => {
+            let s = Pipeline::<A, Sse2>::sse2().unwrap();
+            score_generic_no_api::<A, U64, _, _>(&g, &s, syms, pssm, ranges, wrap_override)
         }
         Cfg::AvxU32 => {
             let s = Pipeline::<A, Avx2>::avx2().unwrap();
